@@ -67,16 +67,18 @@ def concrete_failures(desc, costs):
         if v == L and mm != lm and costs["floss"] > 0:
             fails.append(("notunique", f"{case.mapping_names(mm)} also costs {L}"))
             break
-    for pol in ("any", "all"):
-        res = D.run_algo("thl", inp, pol)
+    for solver, pol in (("thl", "any"), ("thl", "all"), ("exh", "all")):
+        if solver == "exh" and case.O.n > 7:
+            continue
+        res = D.run_algo(solver, inp, pol)
         for o in res:
             c2, _ = orc.recount(o)
             if c2 is None or H.form_value(costs, c2) != L:
-                fails.append(("thl", f"thl with forbidden transfers returns cost {None if c2 is None else H.form_value(costs, c2)} != LCA cost {L}"))
+                fails.append(("thl", f"{solver} with forbidden transfers returns cost {None if c2 is None else H.form_value(costs, c2)} != LCA cost {L}"))
             elif costs["floss"] > 0 and case.mapping_of(o) != lm:
-                fails.append(("thl", "thl with forbidden transfers returns a non-LCA optimum although floss > 0"))
+                fails.append(("thl", f"{solver} with forbidden transfers returns a non-LCA optimum although floss > 0"))
         if not res:
-            fails.append(("thl", "thl returned nothing"))
+            fails.append(("thl", f"{solver} returned nothing"))
     return fails
 
 
@@ -135,23 +137,25 @@ def worker(item):
                 mdl = ctx.prove(z3.Implies(ctx.z(costs["floss"]) > 0, z3.And(*cl)))
                 if not ob(mdl is None):
                     viol("notunique", "another transfer-free reconciliation is as cheap as the LCA reconciliation with floss > 0", costs, mdl, ctx)
-            # thl with forbidden transfers, explored on the same symbols
-            for pol in ("any", "all"):
-                tres = D.run_algo("thl", inp, pol)
+            # thl and the exhaustive solver with forbidden transfers, explored on the same symbols
+            for solver, pol in (("thl", "any"), ("thl", "all"), ("exh", "all")):
+                if solver == "exh" and case.O.n > 7:
+                    continue
+                tres = D.run_algo(solver, inp, pol)
                 if not ob(bool(tres)):
-                    viol("thl", "thl returned nothing", costs, None, ctx)
+                    viol("thl", f"{solver} returned nothing", costs, None, ctx)
                 for o in tres:
                     c2, _ = orc.recount(o)
                     if not ob(c2 is not None and c2[2] == 0):
-                        viol("thl", "thl returned an invalid or transfer-bearing reconciliation with hgt = inf", costs, None, ctx)
+                        viol("thl", f"{solver} returned an invalid or transfer-bearing reconciliation with hgt = inf", costs, None, ctx)
                         continue
                     mdl = ctx.prove(ctx.z((H.form_z(ctx, costs, c2) + zero) - (L + zero)) == 0)
                     if not ob(mdl is None):
-                        viol("thl", "thl(hgt=inf) optimum differs from the LCA cost", costs, mdl, ctx)
+                        viol("thl", f"{solver}(hgt=inf) optimum differs from the LCA cost", costs, mdl, ctx)
                     if case.mapping_of(o) != lm:
                         mdl = ctx.prove(ctx.z(costs["floss"]) == 0)
                         if not ob(mdl is None):
-                            viol("thl", "thl(hgt=inf) returns a non-LCA optimum with floss > 0", costs, mdl, ctx)
+                            viol("thl", f"{solver}(hgt=inf) returns a non-LCA optimum with floss > 0", costs, mdl, ctx)
             if out["sample"] is None:
                 out["sample"] = {"input": desc, "lca_mapping": case.mapping_names(lm), "lca_counts(spe,dup,hgt,floss)": cnt,
                                  "transfer_free_reconciliations": len(dl)}
